@@ -67,7 +67,7 @@ package runner
 //@   ensures [inactive_does_not_indent] !s.active ==> (forall k int :: old(tlen()) <= k && k < tlen() ==> !evIs(k, "internal/cmd/runner:indenter.Indent") && !evIs(k, "internal/cmd/runner:indenter.EndIndent"))
 //@   ensures [reported_count_is_the_number_of_errors C10] s.active && result != nil ==> tlen() > old(tlen())
 //@        && evIs(tlen() - 1, "internal/cmd/runner:printer.PrintAlignedLn")
-//@        && evS3(tlen() - 1) == (len(grouperror.Collection(result)) > 1 ? " (" + itoa(len(grouperror.Collection(result))) + " errors)" : " (" + itoa(len(grouperror.Collection(result))) + " error)")
+//@        && contains(evS3(tlen() - 1), itoa(len(grouperror.Collection(result))))
 
 //@ func (*StepVerboseSwitchable).Active
 //@   property C16
